@@ -1054,9 +1054,60 @@ def cases_c03(ctx, boost):
     return out
 
 
+# =============================================================================== C02
+def cases_c02(ctx, boost):
+    out = []
+    for cfg in ctx.cfgs(("000", "111")):
+        g = ctx.gen(cfg)
+        rng = g.rng
+        sj = ctx.data["schemas"][cfg]
+        for variant, payload in sj["variants"]["response_variants"]:
+            if payload is None:
+                out.append(Case("resp", cfg, f"resp {cfg} {variant} - 64 -", tag="parameter-less"))
+                continue
+            t = {"named": payload}
+            r = g.s.res(t)
+            n = len(r["fields"])
+            usable = [i for i, f in enumerate(r["fields"]) if f["rust"] in r["rust"]["pub_fields"]]
+            optional = [i for i in usable if g.s.is_opt_field(r, r["fields"][i])]
+            if len(optional) <= 12 and (ctx.tier == "thorough" or len(optional) <= 7):
+                subsets = [set(o for j, o in enumerate(optional) if (m >> j) & 1) for m in range(1 << len(optional))]
+            else:
+                subsets = [set(), set(optional)] + [{o} for o in optional] + \
+                          [{a, b} for a in optional for b in optional if a < b]
+                if ctx.tier == "quick" and len(subsets) > 150:
+                    subsets = subsets[:2 + len(optional)] + rng.sample(subsets[2 + len(optional):], 100)
+                subsets += [set(rng.sample(optional, rng.randint(0, len(optional)))) for _ in range(20 * boost)]
+            for sub in subsets:
+                for attempt in range(4):
+                    full = g.rand_val(t, p_opt=1.0)
+                    slots = [(full[1][i] if (i in usable and (i not in optional or i in sub)) else None) for i in range(n)]
+                    v = ('r', slots)
+                    if g.val_buildable(t, v):
+                        out.append(Case("resp", cfg, f"resp {cfg} {variant} {show(v)} 8192 -", tag=f"{variant} subset"))
+                        if variant == "GetAssertion":
+                            out.append(Case("resp", cfg, f"resp {cfg} GetNextAssertion {show(v)} 8192 -", tag="GetNextAssertion"))
+                        break
+    return out
+
+
 NOT_YET = {}
 
 PROPS = {
+    "C02": {"ns": "C02", "cases": cases_c02, "uses": ["e1", "responseSerialize_spec", "responseSerialize_empty"],
+            "level_text": "Proof. Obligation: the six response schemas regenerated from the source equal the specification's "
+                          "member tables (key = position + 1, type, optionality) in all 8 configurations (Ob.respRoles_eq), are "
+                          "integer-keyed with offset 1, and cannot write null (noNull: every member that may be unset is skipped "
+                          "when unset). Theorem message (E1 + C17 framing): for every response kind with a body, every value an "
+                          "authenticator can build and every sufficiently large buffer, the output is 0x00 followed by encC of the "
+                          "map whose entries are exactly the set members, each once, under its key, with toC of its value — or the "
+                          "status byte alone when no member is set; never_null (mutual induction): no null at any depth; "
+                          "parameterless: Reset / Selection / Vendor => [0x00]; GetNextAssertion shares GetAssertion's body. Both "
+                          "attestation-statement shapes and all four COSE key kinds are constructors of the value universe.",
+            "rule": "every response variant × every subset of optional members (2^k when k <= 7 quick / 12 thorough; else empty, "
+                    "full, singletons, pairs (sampled in quick), random) × random member values incl. both attestation "
+                    "statement shapes and the four COSE key kinds",
+            "assumptions": ["make_credential::UnsignedExtensionOutputs cannot be constructed outside the crate: always unset"]},
     "C03": {"ns": "C03", "cases": cases_c03, "uses": ["e1", "canon_toC", "allKeysGt_toC", "canon_cCose"],
             "level_text": "Proof. E1 (Ctap/Canon.lean): for every schema and every serialisable value the serializer model writes "
                           "exactly encC (toC t v), the shortest-form definite-length encoding of one item of a universe that has "
